@@ -100,6 +100,10 @@ static std::vector<std::string> cpu_gen(const GenArgs &ga) {
   if (coin(1, 2)) c.e1edx = (unsigned)r.next();
   pl.push_back(strf("cpu vendor=%s maxleaf=%u l1ecx=%#x l1edx=%#x l7ebx=%#x extmax=%#x e1ecx=%#x e1edx=%#x xcr0=%#x", c.vendor.c_str(),
                     c.maxleaf, c.l1ecx, c.l1edx, c.l7ebx, c.extmax, c.e1ecx, c.e1edx, c.xcr0));
+  // the processor's name says nothing about what it can execute (underscores stand for blanks)
+  static const char *brands[] = {"-", "-", "Intel(R)_Xeon(R)_Platinum_8375C_CPU_@_2.90GHz", "AMD_EPYC_7B12", "Virtual_CPU_a7769a6388d5",
+                                 "QEMU_Virtual_CPU_version_2.5+", "VirtualApple_@_2.50GHz_processor", "Common_KVM_processor", "Genuine_Intel(R)_CPU_0000"};
+  pl.back() += strf(" brand=%s", brands[r.below(9)]);
   // environment
   std::string backend = "-", target = "-";
   int e = (int)r.below(10);
@@ -209,11 +213,12 @@ static OrcTarget g_xt[2];
 
 static void cpu_run(const std::vector<std::string> &plan, Child &c) {
   Cpu cpu;
-  std::vector<std::string> env_w, prog_w, app_w;
+  std::vector<std::string> env_w, prog_w, app_w, w_cpu;
   for (auto &l : plan) {
     auto w = words(l);
     if (w.empty()) continue;
     if (w[0] == "cpu") {
+      w_cpu = w;
       cpu.vendor = kv(w, "vendor", "intel");
       cpu.maxleaf = kvu(w, "maxleaf"); cpu.l1ecx = kvu(w, "l1ecx"); cpu.l1edx = kvu(w, "l1edx");
       cpu.l7ebx = kvu(w, "l7ebx"); cpu.extmax = kvu(w, "extmax"); cpu.e1ecx = kvu(w, "e1ecx");
@@ -225,6 +230,11 @@ static void cpu_run(const std::vector<std::string> &plan, Child &c) {
   std::string backend = kv(env_w, "ORC_BACKEND", "-"), otarget = kv(env_w, "ORC_TARGET", "-"), code = kv(env_w, "ORC_CODE", "-");
   setenv("ORC_VERIF_CPUID", strf("%x:%x:%x:%x:%x:%x:%x:%x:%x", vendor_code(cpu.vendor), cpu.maxleaf, cpu.l1ecx, cpu.l1edx, cpu.l7ebx,
                                  cpu.extmax, cpu.e1ecx, cpu.e1edx, cpu.xcr0).c_str(), 1);
+  {
+    std::string brand = kv(w_cpu, "brand", "-");
+    for (auto &ch : brand) if (ch == '_') ch = ' ';
+    if (brand != "-") setenv("ORC_VERIF_CPUID_BRAND", brand.c_str(), 1); else unsetenv("ORC_VERIF_CPUID_BRAND");
+  }
   if (backend == "EMPTY") backend = "";
   if (otarget == "EMPTY") otarget = "";
   if (backend != "-") setenv("ORC_BACKEND", backend.c_str(), 1); else unsetenv("ORC_BACKEND");
